@@ -44,12 +44,14 @@ PARAMS = params_menu()
 
 
 def plan(tier, seed):
-    pairs = spaces.shape_pairs(4, 3) if tier == "quick" else spaces.shape_pairs(5, 3) + spaces.shape_pairs(4, 4, min_sp=4)
+    # quick: <=4 x <=3 leaves plus few-leaved objects on deeper species trees (4-6 leaves)
+    pairs = (spaces.shape_pairs(4, 3) + spaces.shape_pairs(3, 4, min_sp=4) + spaces.shape_pairs(2, 6, min_sp=5) if tier == "quick"
+             else spaces.shape_pairs(5, 3) + spaces.shape_pairs(4, 4, min_sp=4) + spaces.shape_pairs(3, 6, min_sp=5))
     out = []
     for osh, ssh in pairs:
         k = max(1, spaces.count_assignments(osh, ssh) // 8)
         for i in range(k):
-            out.append({"slice": "P4x3" if tier == "quick" else "P5x3+P4x4", "osh": osh, "ssh": ssh, "part": (i, k)})
+            out.append({"slice": "P4x3+P3x4+P2x6" if tier == "quick" else "P5x3+P4x4+P3x6", "osh": osh, "ssh": ssh, "part": (i, k)})
     return out
 
 
